@@ -78,6 +78,13 @@ pub(crate) fn verif_bitbuf_capacity() -> usize {
     VERIF_BITBUF_CAPACITY.load(std::sync::atomic::Ordering::SeqCst)
 }
 
+/// Verification hook: the (otherwise private) chunk readers, so that `ChunkDataReader` can be driven directly.
+#[cfg(signalapp_mp4san_verif)]
+#[doc(hidden)]
+pub mod verif_reader {
+    pub use crate::reader::{ChunkDataReader, ChunkReader};
+}
+
 //
 // private types
 //
